@@ -60,6 +60,23 @@ def field_names(pl):
     return [p.get('name', str(p.get('i'))) for p in pl['p'] if p['k'] == 'field']
 
 
+def place_key(pl):
+    """hashable identity of a place: (base local, projection path)"""
+    out = []
+    for p in pl['p']:
+        if p['k'] == 'deref':
+            out.append('*')
+        elif p['k'] == 'field':
+            out.append('.%s' % p.get('i'))
+        elif p['k'] == 'downcast':
+            out.append('@%s' % p.get('vidx'))
+        elif p['k'] == 'index':
+            out.append('[_%s]' % p.get('local'))
+        else:
+            out.append('?')
+    return (pl['l'], ''.join(out))
+
+
 class Loc(tuple):
     """(bb, idx); idx == len(stmts) means the terminator."""
     __slots__ = ()
@@ -408,6 +425,8 @@ class Func:
     def _forget_enum(self, envd, x):
         envd.pop(('D', x), None)
         envd.pop(('P', x), None)
+        for k in [k for k in envd if isinstance(k, tuple) and k[0] == 'D' and isinstance(k[1], tuple) and k[1][0] == x]:
+            envd.pop(k, None)
         for k in [k for k, v in envd.items() if isinstance(k, tuple) and k[0] in ('R', 'DA') and (v == x or (isinstance(v, tuple) and v[0] == x))]:
             envd.pop(k, None)
 
@@ -484,8 +503,9 @@ class Func:
                     envd[('P', x)] = envd[('P', rv['op']['l'])]
         if x not in stable:
             return
-        if rv is not None and rv['k'] == 'discr' and 'l' in rv.get('place', {}) and not rv['place']['p'] and rv['place']['l'] in self._frozen_enums():
-            e = rv['place']['l']
+        if rv is not None and rv['k'] == 'discr' and 'l' in rv.get('place', {}) and rv['place']['l'] in self._frozen_enums():
+            # whole locals are keyed by their number, projected places (`*direction`, `(*args).1`) by base + path
+            e = rv['place']['l'] if not rv['place']['p'] else place_key(rv['place'])
             forget(x)
             envd[('DA', x)] = e
             if ('D', e) in envd:
@@ -689,9 +709,15 @@ class Func:
         while work:
             l = work.pop()
             for loc, kind, payload in self.defs.get(l, []):
-                if kind == 'assign' and payload['k'] == 'use' and 'l' in payload['op'] and not payload['op']['p'] and payload['op']['l'] not in roots:
+                if kind == 'assign' and payload['k'] == 'use' and 'l' in payload['op'] and payload['op']['l'] not in roots \
+                        and all(p_['k'] == 'field' for p_ in payload['op']['p']):
                     roots.add(payload['op']['l'])
                     work.append(payload['op']['l'])
+                # a one-field wrapper (union arm, newtype) carries its operand
+                if kind == 'assign' and payload['k'] == 'agg' and len(payload.get('ops', [])) == 1 and 'l' in payload['ops'][0] \
+                        and not payload['ops'][0]['p'] and payload['ops'][0]['l'] not in roots:
+                    roots.add(payload['ops'][0]['l'])
+                    work.append(payload['ops'][0]['l'])
         out = set()
         seen = set()
         dq = deque()
@@ -718,7 +744,13 @@ class Func:
                         x = st['lhs']['l']
                         rv = st['rv']
                         if rv['k'] == 'use' and 'l' in rv['op'] and not rv['op']['p'] and rv['op']['l'] in roots:
-                            lastd[x] = lastd.get(rv['op']['l'], 'entry')
+                            # (a source defined before the start of the search: its static definition, if unique)
+                            lastd[x] = lastd.get(rv['op']['l'], ('S', rv['op']['l']) if self.single_def(rv['op']['l']) else 'entry')
+                        elif rv['k'] == 'agg' and len(rv.get('ops', [])) == 1 and 'l' in rv['ops'][0] and not rv['ops'][0]['p'] and rv['ops'][0]['l'] in roots:
+                            lastd[x] = lastd.get(rv['ops'][0]['l'], 'entry')
+                        elif rv['k'] == 'use' and 'l' in rv['op'] and rv['op']['l'] in roots and all(p_['k'] == 'field' for p_ in rv['op']['p']):
+                            # a field of a tuple/struct local: the definition of that local, narrowed to the field
+                            lastd[x] = ('F', lastd.get(rv['op']['l'], 'entry'), tuple(p_.get('i') for p_ in rv['op']['p']))
                         else:
                             lastd[x] = Loc(bb, k)
                     self._env_block(envd, bb, k, k + 1)
